@@ -29,6 +29,7 @@ def run(tier):
              sum(1 for x in rc for y in x['res']['reports'] if y.ok), 6 if tier == 'quick' else 60)
     irrules.run_canaries(ck, {'ir_alloc': [('R04.1', 'canary_leak_on_throw'), ('R04.5', 'canary_free_inline')]},
                          silent=('canary_ok_alloc',))
+    irrules.run_canaries(ck, {'ir_pair': [('R02.7', 'canary_fresh_unproved')]}, silent=('canary_ok_alloc',), assert_flavour=True)
     ck.assumptions += ['Allocator requirements: deallocate/copy/== do not throw',
                        'clang 14 -O0 lowering of try/catch/noexcept (invoke/landingpad/terminate pads)',
                        'summary inlining bound: loop-free callees with <= 10 paths are expanded in place, others are opaque with may-throw/may-write summaries']
